@@ -203,8 +203,8 @@ static void stage_colorder(const int_t *pin, const char *label, int sym) {
     for (int i = 0; i < n; i++) { h = hmix(h, (unsigned long long)pin[i] + 1); h = hmix(h, (unsigned long long)pc[i] * 7 + 3); h = hmix(h, (unsigned long long)opt.etree[i] * 13 + 5); h = hmix(h, (unsigned long long)opt.part_super_h[i] * 17 + (unsigned long long)opt.colcnt_h[i] * 31); }
     note_distinct(h);
 
-    /* (b) A untouched; AC is A with permuted column pointers, sharing values and row indices */
-    check_A(cs);
+    /* (b) AC is A with permuted column pointers, sharing values and row indices; A untouched (checked after the pointer comparison:
+     * check_A rebuilds A when it was modified) */
     int pf_ok = is_bijection(pc, n, msg, sizeof msg);
     if (!pf_ok) { char v[100], w[100]; vec_str(pc, n, v, sizeof v); vec_str(pin, n, w, sizeof w); snprintf(sig, sizeof sig, "C10:bijection:colorder%s", sfx); viol(sig, cs, "perm_c [%s] -> [%s] after sp_colorder: %s", w, v, msg); }
     {
@@ -218,6 +218,7 @@ static void stage_colorder(const int_t *pin, const char *label, int sym) {
             snprintf(d, sizeof d, "column %d of A is [%ld,%ld) but AC column perm_c[%d]=%ld is [%ld,%ld)", j, (long)M.am.ptr0[j], (long)M.am.ptr0[j + 1], j, (long)pc[j], (long)S->colbeg[pc[j]], (long)S->colend[pc[j]]); bad = d; }
         if (bad) viol("C10:ac-columns", cs, "%s", bad);
     }
+    check_A(cs);
     long et[NMAX]; for (int i = 0; i < n; i++) et[i] = (long)opt.etree[i];
     /* (c) reported tree has the promised numbering */
     int shape_bad = shape_check(n, et, msg, sizeof msg);
